@@ -111,6 +111,10 @@ func offInput(id run.CaseID) offCase {
 	oc.Join = r.Intn(4)
 	oc.Miter = gen.PickOf(r, 1, 1.5, 2, 5)
 	oc.ArcTol = gen.PickOf(r, 0, 0, 0.25, mag/2)
+	if r.Chance(0.1) { // a vertex exactly on the origin
+		dx, dy := anchorShift(r, []Paths{oc.Paths}, nil)
+		oc.Paths = gen.Translate(oc.Paths, dx, dy)
+	}
 	if id.Family == "off-big" && oc.ArcTol > 0 && oc.ArcTol < mag/500 {
 		oc.ArcTol = mag / 500 // <= ~50 steps per quarter turn; hundreds of jagged vertices times thousands of arc points each is legitimate but only slow
 	}
